@@ -5,6 +5,10 @@
 // H part : all orders of first use of {value, gradient, gradient+sens, subset sensitivity, Hessian x v, approx Hessian x v}
 //          after set_up, objective function constructed in pre-poisoned memory (0x00/0xAA/0xFF), sensitivity recomputed
 //          or supplied; every number is also fed to ctx.digest so that the driver can compare runs with different heap poisoning
+// A part : (accessor invariants, inside E and H) get_sensitivity() == P^T n 1 on the explicit matrix and
+//          sum_s get_subset_sensitivity(s) == get_sensitivity(), with use_subset_sensitivities on AND off (>= 2 subsets), directly after
+//          set_up, after the value/gradient/Hessian requests of every E case, and in EVERY state of the H search (after set_up and after
+//          each request of each order)
 #include "vmc.h"
 #include "stir_small.h"
 #include "stir/recon_buildblock/PoissonLogLikelihoodWithLinearModelForMeanAndProjData.h"
@@ -516,6 +520,8 @@ struct ERun
   Model m;
   std::string cs;
   long only_img = -1, only_dat = -1, only_vec = -1; // replay restriction
+  std::vector<double> totref_, totT_;               // reference total sensitivity of the current data set (set by run_data)
+  bool total_ok_after_set_up_ = true, sum_ok_after_set_up_ = true;
 
   ERun(vmc::Ctx& ctx_, const World& w_, const Cfg& c_) : ctx(ctx_), w(w_), c(c_), m(make_model(w_, c_)), cs(c_.str()) {}
 
@@ -525,8 +531,9 @@ struct ERun
     o << "clause=" << clause << ";tof=" << (w.tof ? 1 : 0);
     const bool is_prior = clause.compare(0, 11, "prior_share") == 0;
     const bool is_hess = clause.find("hessian") != std::string::npos && clause.find("approx") == std::string::npos;
-    if (!is_prior && !is_hess) o << ";norm=" << NORMN[c.norm];
-    if (!is_prior) o << ";zero_end_planes=" << c.zero;
+    const bool is_acc = clause.compare(0, 26, "sum_of_get_subset_sensitiv") == 0; // implementation against implementation
+    if (!is_prior && !is_hess && !is_acc) o << ";norm=" << NORMN[c.norm];
+    if (!is_prior && !is_acc) o << ";zero_end_planes=" << c.zero;
     if (!extra.empty()) o << ";" << extra;
     return o.str();
   }
@@ -543,6 +550,25 @@ struct ERun
     if (r.bad) ctx.violation(key(clause, keyextra), kase_, clause + ": " + cmpmsg(r));
     ctx.digest(dg(impl));
     return !r.bad;
+  }
+
+  // accessor invariants: get_sensitivity() equals P^T n 1 of the explicit matrix, and the subset sensitivities returned by
+  // get_subset_sensitivity(s) add up to what get_sensitivity() returns (impl against impl), whatever was requested before (`when`)
+  // after set_up the comparison of get_sensitivity() with the definition is the existing clause `sensitivity_total`; after the requests
+  // each invariant is only evaluated if it held after set_up (so that the key names the step that broke it)
+  void check_accessors(Built& b, const std::string& kase_, bool after_requests)
+  {
+    ctx.count("accessor_invariant_checks");
+    const std::string ke = "usub=" + std::to_string(c.usub) + ";when=" + (after_requests ? "after_requests" : "after_set_up");
+    std::vector<double> total = from_image(b.obj->get_sensitivity()), sum(w.nvox, 0.0);
+    for (int S = 0; S < c.ns; ++S)
+      {
+        std::vector<double> s_impl = from_image(b.obj->get_subset_sensitivity(S));
+        for (int j = 0; j < w.nvox; ++j) sum[j] += s_impl[j];
+      }
+    if (after_requests && total_ok_after_set_up_) check("get_sensitivity_vs_definition", kase_, total, totref_, totT_, ke);
+    if (!after_requests) sum_ok_after_set_up_ = check("sum_of_get_subset_sensitivity_vs_get_sensitivity", kase_, sum, total, totT_, ke);
+    else if (sum_ok_after_set_up_) check("sum_of_get_subset_sensitivity_vs_get_sensitivity", kase_, sum, total, totT_, ke);
   }
 
   void run()
@@ -589,6 +615,7 @@ struct ERun
       const std::string k0 = kase(dat, 0);
       std::vector<double> total_impl = from_image(b.obj->get_sensitivity());
       bool sens_ok = check("sensitivity_total", k0, total_impl, totref, totT, "usub=" + std::to_string(c.usub));
+      total_ok_after_set_up_ = sens_ok;
       for (int S = 0; S < ns; ++S)
         {
           std::vector<double> s_impl = from_image(b.obj->get_subset_sensitivity(S));
@@ -614,6 +641,9 @@ struct ERun
         }
       if (sens_ok) check("sum_over_subsets;q=sensitivity", k0, tot, totref, totT, "usub=" + std::to_string(c.usub));
       ctx.nontrivial(cs + ";sens");
+      totref_ = totref; totT_ = totT;
+      // the accessors against each other (reported whether or not the comparisons with the formulas passed)
+      check_accessors(b, k0, false);
     }
 
     // ---- images: uniform, labelled, uniform with single-voxel deviations
@@ -856,6 +886,8 @@ struct ERun
             }
         }
       }
+    // ---- the sensitivity accessors after the value / gradient / Hessian requests of this case
+    check_accessors(b, k, true);
   }
 };
 
@@ -870,6 +902,10 @@ struct OrderOutcome
   std::vector<std::vector<double>> res;
   std::vector<std::string> exc;
   std::vector<char> done, threw;
+  // accessor snapshots per state of the history: slot 0 after set_up, slot k after the k-th request of the order
+  // (only up to the first request that throws)
+  std::vector<std::vector<double>> acc_total, acc_sum;
+  std::vector<char> acc_sum_null; // some get_subset_sensitivity_sptr(s) was a null pointer
   OrderOutcome() : res(NREQ), exc(NREQ), done(NREQ, 0), threw(NREQ, 0) {}
 };
 
@@ -947,6 +983,21 @@ struct HRun
     shared_ptr<Target> out(w.im->get_empty_copy());
     unsigned mask = 0;
     states.insert(canon(*b.obj, mask));
+    auto snapshot = [&] {
+      oc.acc_total.push_back(is_null_ptr(b.obj->sensitivity_sptr) ? std::vector<double>() : from_image(b.obj->get_sensitivity()));
+      std::vector<double> sum(w.nvox, 0.0);
+      bool null = false;
+      for (int S = 0; S < c.ns; ++S)
+        {
+          if (is_null_ptr(b.obj->get_subset_sensitivity_sptr(S))) { null = true; break; }
+          const std::vector<double> s = from_image(b.obj->get_subset_sensitivity(S));
+          for (int j = 0; j < w.nvox; ++j) sum[j] += s[j];
+        }
+      oc.acc_sum.push_back(sum);
+      oc.acc_sum_null.push_back(null ? 1 : 0);
+    };
+    snapshot();
+    bool any_threw = false;
     for (int r : order)
       {
         ctx.count("transitions");
@@ -984,10 +1035,11 @@ struct HRun
             case RSA: out->fill(0.F); b.obj->add_subset_sensitivity(*out, 0); oc.res[r] = from_image(*out); break;
             }
         }, &what);
-        if (t) { oc.threw[r] = 1; oc.exc[r] = what; }
+        if (t) { oc.threw[r] = 1; oc.exc[r] = what; any_threw = true; }
         ctx.count(std::string("us_H_req_") + REQN[r], (long long)((ctx.elapsed() - t1) * 1e6));
         mask |= 1u << r;
         states.insert(canon(*b.obj, mask));
+        if (!any_threw) snapshot();
       }
     return oc;
   }
@@ -1051,6 +1103,42 @@ struct HRun
         return;
       }
     const bool tof_rows_for_sens = !w.tof || c.tofsens || c.norm == 4;
+    // ---- accessor invariants in every state of this history: get_sensitivity() == P^T n 1 (all ones when the sensitivity is forced to 1),
+    //      sum_s get_subset_sensitivity(s) == get_sensitivity(); only the first state that breaks one of them is reported, named by the
+    //      step that led to it (set_up or the request)
+    {
+      std::vector<double> tref, tT;
+      if (supply == 1) { tref.assign(w.nvox, 1.0); tT = tref; }
+      else ref.sensitivity(-1, tof_rows_for_sens, tref, tT);
+      bool total_reported = false, sum_reported = false;
+      for (size_t slot = 0; slot < oc.acc_total.size(); ++slot)
+        {
+          const std::string after = std::string("usub=") + std::to_string(c.usub) + ";after=" + (slot == 0 ? "set_up" : REQN[order[slot - 1]]);
+          ctx.count("accessor_invariant_checks");
+          if (oc.acc_total[slot].empty())
+            {
+              ctx.count("total_sensitivity_null_pointer");
+              continue;
+            }
+          ctx.digest("acc:" + dg(oc.acc_total[slot]));
+          ctx.count("comparisons");
+          Cmp ct = compare(oc.acc_total[slot], tref, tT, CTOL, 2 * SMALLNUM);
+          if (ct.bad && !total_reported)
+            {
+              total_reported = true;
+              ctx.violation(key("history_get_sensitivity_vs_definition", after), kase, "get_sensitivity() in the state reached " + after + ": " + cmpmsg(ct));
+            }
+          if (oc.acc_sum_null[slot]) { ctx.count("accessor_sum_skipped_null_subset_sensitivity"); continue; }
+          ctx.count("comparisons");
+          Cmp cu = compare(oc.acc_sum[slot], oc.acc_total[slot], tT, CTOL, 0.0);
+          if (cu.bad && !sum_reported)
+            {
+              sum_reported = true;
+              ctx.violation(key("history_sum_of_get_subset_sensitivity_vs_get_sensitivity", after), kase,
+                            "sum over subsets of get_subset_sensitivity(s) against get_sensitivity() in the state reached " + after + ": " + cmpmsg(cu));
+            }
+        }
+    }
     for (size_t pos = 0; pos < order.size(); ++pos)
       {
         const int r = order[pos];
@@ -1128,7 +1216,10 @@ int main(int argc, char** argv)
   small::quiet();
   ctx.rule = "E: every configuration {geometry x matrix symmetries x additive x normalisation x zero_seg0_end_planes x max_segment x "
              "use_subset_sensitivities x num_subsets} x data set x image; a case is non-trivial if it passes the threshold screen; "
-             "distinct = distinct (configuration,data,image) strings";
+             "distinct = distinct (configuration,data,image) strings. H: every order of first use x sensitivity supply x poison, with "
+             "use_subset_sensitivities off as well as on when the sensitivity is recomputed with >= 2 subsets. Accessor invariants "
+             "(get_sensitivity() == P^T n 1; sum_s get_subset_sensitivity(s) == get_sensitivity()) are evaluated after set_up and after the "
+             "requests of every E case and in every state (after set_up and after each request) of every H order";
   ctx.assume("tolerance: |impl-ref| <= (64*eps_float + 2e-6)*sum|terms| per element, reference in double on the explicit matrix P "
              "(rows of ProjMatrixByBinUsingRayTracing with all symmetries off, z clipped to the image)");
   ctx.assume("2e-6 share: divide_and_truncate/accumulate_loglikelihood treat numerators <= 1e-6*max(viewgram) as zero");
@@ -1136,6 +1227,9 @@ int main(int argc, char** argv)
   ctx.assume("subset S = views with (view-min_view) mod num_subsets == S; per-subset formulas only for num_subsets that STIR reports as balanced; "
              "otherwise only the sum over subsets is compared");
   ctx.assume("use_subset_sensitivities=0: subset sensitivity = total/num_subsets as documented");
+  ctx.assume("accessor invariants: sum_s get_subset_sensitivity(s) against get_sensitivity() within 64*eps_float*(P^T n 1) per element (both float "
+             "arrays of the implementation); in the H part they are not evaluated after a request that threw, and the subset sum is skipped when "
+             "a subset sensitivity pointer is null (sensitivity forced to 1)");
 
   if (ctx.replaying())
     {
@@ -1180,8 +1274,8 @@ int main(int argc, char** argv)
                         if (!ctx.thorough() && gi == 2)
                           {
                             // quick tier, TOF geometry: symmetries on, additive none/labelled, normalisation none / non-TOF factors / TOF-dependent
-                            // factors, all segments, subset sensitivities, 1 and 2 subsets, TOF sensitivities off and on
-                            if (sym == 0 || add == 1 || norm == 1 || norm == 3 || zero == 1 || mseg != max_seg || usub == 0 || ns > 2) continue;
+                            // factors, all segments, use_subset_sensitivities on and (with 2 subsets) off, 1 and 2 subsets, TOF sensitivities off and on
+                            if (sym == 0 || add == 1 || norm == 1 || norm == 3 || zero == 1 || mseg != max_seg || (usub == 0 && ns < 2) || ns > 2) continue;
                           }
                         if (!ctx.mine(unit++)) continue;
                         if (ctx.expired()) goto done;
@@ -1227,12 +1321,15 @@ int main(int argc, char** argv)
           {
             if (hc.mx && pi != 1) continue;
             const int nreq = supply == 0 ? hc.nreq0 : 6;
+            // use_subset_sensitivities: a single sensitivity (file or forced to 1) needs it off, subset files need it on; when the sensitivity
+            // is recomputed both are legal: on, and (with >= 2 subsets, where it makes a difference) off
+            for (int uv = 0; uv < ((supply == 0 && hc.ns >= 2) ? 2 : 1); ++uv)
             for (int first = 0; first < nreq; ++first)
               {
                 if (!ctx.mine(unit++)) continue;
                 if (ctx.expired()) goto done;
                 Cfg c; c.geo = hc.geo; c.sym = hc.sym; c.add = hc.add; c.norm = hc.norm; c.zero = 0; c.mseg = GEOS[hc.geo].maxd; c.ns = hc.ns; c.tofsens = hc.tofsens;
-                c.usub = (supply == 1 || supply == 2) ? 0 : 1;
+                c.usub = (supply == 1 || supply == 2) ? 0 : (uv == 0 ? 1 : 0);
                 const double t0 = ctx.elapsed();
                 run_H_unit(ctx, c, supply, POISON[pi], hc.mx, nreq, first);
                 ctx.count(std::string("cpu_ms_H_") + GEOS[hc.geo].name, (long long)((ctx.elapsed() - t0) * 1000));
